@@ -99,8 +99,9 @@ def body_triple(ctx: H.BaseCtx):
     dup_rows = len(set(rows)) != len(rows)
     dup_names = len(set(names)) != len(names)
     fn = {"from_attributes": numpoly.polynomial_from_attributes, "ndpoly.from_attributes": numpoly.ndpoly.from_attributes}[case.get("via", "from_attributes")]
+    form = {"numpy": numpy.bool_, "int": int, "array0d": lambda v: numpy.array(v)}.get(case.get("flagform"), bool)  # the same truth value, another carrier
     try:
-        p = fn(exponents=[list(r) for r in rows], coefficients=arrs, names=names, retain_coefficients=rc, retain_names=rn)
+        p = fn(exponents=[list(r) for r in rows], coefficients=arrs, names=names, retain_coefficients=form(rc), retain_names=form(rn))
         exc = None
     except Exception as e:
         p, exc = None, e
@@ -135,8 +136,12 @@ def body_triple(ctx: H.BaseCtx):
     check_invariants(ctx, p, "constructed polynomial")
     # clean_attributes on the result with the opposite flags never changes the denotation
     try:
-        q = numpoly.clean_attributes(p, retain_coefficients=False, retain_names=False)
+        q = numpoly.clean_attributes(p, retain_coefficients=form(False), retain_names=form(False))
         ctx.expect_model(q, exp_model, "clean_attributes(result)")
+        if not rc or not rn:
+            qn = [n_ for i, n_ in enumerate(p.names) if any(int(r[i]) for r, a in zip(p.exponents.tolist(), p.coefficients) if col_nonzero(a))] or [p.names[0]]
+            if tuple(q.names) != tuple(qn):
+                ctx.fail("names", "clean_attributes(result, flags off given as %s) keeps names %s, expected %s" % (case.get("flagform", "bool"), tuple(q.names), tuple(qn)))
         check_invariants(ctx, q, "clean_attributes(result)")
     except Exception as e:
         ctx.unexpected_exception(e, "clean_attributes")
@@ -253,6 +258,10 @@ def gen_cases(tier: str, seed: int) -> List[Dict]:
                 # the explicit flags must win over whatever the global options say
                 n += 1
                 cases.append(dict(c, id="%s-%03d-triple-globalopts" % (PROP, n), options={"retain_coefficients": not rc, "retain_names": not rn}))
+                if rng.random() < 0.5:
+                    # the flags as numpy booleans / integers / 0-d arrays (what a comparison or numpy.any hands over), against opposite globals
+                    n += 1
+                    cases.append(dict(c, id="%s-%03d-triple-flagform" % (PROP, n), flagform=rng.choice(["numpy", "int", "array0d"]), options={"retain_coefficients": not rc, "retain_names": not rn}))
     return cases
 
 
